@@ -8,6 +8,10 @@ From SK Require Import lib.C06_Spec proof.C06_All proof.C06_Comp proof.C06_CompS
 From SK Require Import model.C03_Model model.C05_Model proof.C05_Proof.
 Import ListNotations.
 
+Section WithThr.
+Context {TH : Thr}.
+
+
 (** [find] uses its enumeration oracle only by calling it *)
 Section FindExt.
   Variables enum enum' : list N -> list N -> list C06_Model.mapping.
@@ -48,16 +52,16 @@ Lemma comp_subset_all (host : hostg) (pat : molg) :
   let H := host_c06 host in
   let P := pat_c06 pat in
   gwf H -> gwf P ->
-  (comp_bound (C06_Model.monos_on H P) true H P <= DEFAULT_THRESHOLD)%N ->
-  (C06_Model.lenN (C06_Model.monos_on H P (node_ids H) (node_ids P)) <= DEFAULT_THRESHOLD)%N ->
+  (comp_bound (C06_Model.monos_on H P) true H P <= thr_val)%N ->
+  (C06_Model.lenN (C06_Model.monos_on H P (node_ids H) (node_ids P)) <= thr_val)%N ->
   forall m, In m (matches 1%N host pat) -> exists m', In m' (matches 0%N host pat) /\ Permutation m m'.
 Proof.
   intros H P HwH HwP Hb Hl m. rewrite !matches_monos_on. fold H. fold P.
   pose proof (monos_on_oracle_ok H P HwH HwP) as Hor.
-  change (cfg_of 1%N) with (C06_Model.Cfg 1 0 DEFAULT_THRESHOLD true false).
-  change (cfg_of 0%N) with (C06_Model.Cfg 0 0 DEFAULT_THRESHOLD true false).
-  rewrite (find_comp_unlimited (C06_Model.monos_on H P) DEFAULT_THRESHOLD true H P Hb).
-  destruct (all_exact (C06_Model.monos_on H P) DEFAULT_THRESHOLD true H P (proj1 Hor) Hl) as (_ & Hcomplete & _).
+  change (cfg_of 1%N) with (C06_Model.Cfg 1 0 thr_val true false).
+  change (cfg_of 0%N) with (C06_Model.Cfg 0 0 thr_val true false).
+  rewrite (find_comp_unlimited (C06_Model.monos_on H P) thr_val true H P Hb).
+  destruct (all_exact (C06_Model.monos_on H P) thr_val true H P (proj1 Hor) Hl) as (_ & Hcomplete & _).
   pose proof (comp_unl_spec (C06_Model.monos_on H P) H P HwH HwP Hor true) as S. cbv zeta in S.
   intros Hin.
   destruct ((0 <? length (C06_Model.comps P))%nat && (length (C06_Model.comps P) <? length (C06_Model.comps H))%nat && true)%bool.
@@ -68,7 +72,10 @@ Proof.
 Qed.
 
 (** ** insertion order of BOTH inputs: the exhaustive strategy returns the same set of matches (as sets of pairs) *)
+End WithThr.
 From SK Require Import proof.C05_Order.
+Section WithThr2.
+Context {TH : Thr}.
 
 Lemma lab_pat_c06 (g : molg) u :
   C06_Model.lab (pat_c06 g) u
@@ -109,13 +116,15 @@ Lemma matches_all_any_order (host host' : hostg) (pat pat' : molg) :
   let H := host_c06 host in let P := pat_c06 pat in
   let H' := host_c06 host' in let P' := pat_c06 pat' in
   gwf H -> gwf P -> gwf H' -> gwf P' ->
-  (C06_Model.lenN (C06_Model.monos_on H P (node_ids H) (node_ids P)) <= DEFAULT_THRESHOLD)%N ->
-  (C06_Model.lenN (C06_Model.monos_on H' P' (node_ids H') (node_ids P')) <= DEFAULT_THRESHOLD)%N ->
+  (C06_Model.lenN (C06_Model.monos_on H P (node_ids H) (node_ids P)) <= thr_val)%N ->
+  (C06_Model.lenN (C06_Model.monos_on H' P' (node_ids H') (node_ids P')) <= thr_val)%N ->
   forall m, In m (matches 0%N host pat) -> exists m', In m' (matches 0%N host' pat') /\ Permutation m m'.
 Proof.
   intros HS PS H P H' P' Hw Pw Hw' Pw' Hl Hl' m. rewrite !matches_monos_on. fold H P H' P'.
-  change (cfg_of 0%N) with (C06_Model.Cfg 0 0 DEFAULT_THRESHOLD true false).
-  destruct (all_exact (C06_Model.monos_on H P) DEFAULT_THRESHOLD true H P (proj1 (monos_on_oracle_ok H P Hw Pw)) Hl) as (Hsound & _ & _).
-  destruct (all_exact (C06_Model.monos_on H' P') DEFAULT_THRESHOLD true H' P' (proj1 (monos_on_oracle_ok H' P' Hw' Pw')) Hl') as (_ & Hcomplete & _).
+  change (cfg_of 0%N) with (C06_Model.Cfg 0 0 thr_val true false).
+  destruct (all_exact (C06_Model.monos_on H P) thr_val true H P (proj1 (monos_on_oracle_ok H P Hw Pw)) Hl) as (Hsound & _ & _).
+  destruct (all_exact (C06_Model.monos_on H' P') thr_val true H' P' (proj1 (monos_on_oracle_ok H' P' Hw' Pw')) Hl') as (_ & Hcomplete & _).
   intros Hin. apply Hcomplete. apply (is_mono_same host host' pat pat' m HS PS). apply Hsound. exact Hin.
 Qed.
+
+End WithThr2.
